@@ -81,7 +81,7 @@ Live_Returns == <>(st.pc = "done")
 \* the number of content operations / saves per behaviour.
 SmallDoc == {"table", "header", "footnote", "para", "image", "list"}
 LargeDoc == {"longtext", "midimage", "bigimage"}
-AllDoc   == {"para", "heading", "longtext", "table", "image", "midimage", "header", "footer", "footnote", "list", "margins"}
+AllDoc   == {"para", "heading", "longtext", "table", "image", "midimage", "header", "footer", "footnote", "list", "margins", "title", "style", "pad32k", "pad64k"}
 AllMd    == {"mdpara", "mdheading", "mdlist", "mdtable", "mdlong"}
 Reg      == {"newdir", "existing"}
 G(g, doc, md, vias, targets, plan, points, edge, maxdoc, maxsaves) ==
@@ -94,16 +94,16 @@ AllGroups == {
   G("q-targets",     AllDoc, {}, {"Save"}, Targets, "none", 0, 0, 1, 1),
   G("q-md-targets",  {}, AllMd, {"ConvertFile", "BatchConvert"}, Targets, "none", 0, 0, 1, 1),
   G("q-md-sweep",    {}, {"mdtable", "mdlong"}, {"ConvertFile"}, {"newdir"}, "sweep", 150, 64, 1, 1),
-  G("q-resave",      {"para", "image"}, {}, {"Save"}, {"newdir", "existing", "device"}, "none", 0, 0, 2, 2),
-  G("q-random",      AllDoc, {}, {"Save"}, {"newdir", "existing", "device"}, "sweep", 60, 32, 8, 2),
+  G("q-resave",      {"para", "image", "title", "style"}, {}, {"Save"}, {"newdir", "existing", "device", "resave"}, "none", 0, 0, 2, 2),
+  G("q-random",      AllDoc, {}, {"Save"}, {"newdir", "existing", "device", "resave"}, "sweep", 60, 32, 8, 2),
   \* thorough tier
   G("t-sweep-all",   SmallDoc, {}, {"Save"}, Reg, "sweep", 0, 0, 1, 1),
   G("t-sweep-large", LargeDoc, {}, {"Save"}, Reg, "sweep", 600, 256, 2, 1),
   G("t-targets",     AllDoc, {}, {"Save"}, Targets, "none", 0, 0, 2, 1),
   G("t-md-targets",  {}, AllMd, {"ConvertFile", "BatchConvert"}, Targets, "none", 0, 0, 2, 1),
   G("t-md-sweep",    {}, {"mdtable", "mdlong"}, {"ConvertFile", "BatchConvert"}, {"newdir"}, "sweep", 0, 0, 1, 1),
-  G("t-resave",      {"para", "image", "header"}, {}, {"Save"}, {"newdir", "existing", "device"}, "none", 0, 0, 2, 2),
-  G("t-random",      AllDoc, {}, {"Save"}, {"newdir", "existing", "device"}, "sweep", 400, 128, 8, 2)}
+  G("t-resave",      {"para", "image", "header", "title", "style", "margins"}, {}, {"Save"}, {"newdir", "existing", "device", "resave"}, "none", 0, 0, 3, 3),
+  G("t-random",      AllDoc, {}, {"Save"}, {"newdir", "existing", "device", "resave"}, "sweep", 400, 128, 8, 3)}
 Groups == {x \in AllGroups : x.g \in GroupNames}
 
 \* a behaviour: the group, then content operations and saves; emitted whenever it ends with a save
